@@ -17,6 +17,7 @@ DagNext == /\ l <= Len(TraceLog)
               /\ Flag(e, "C01.TopoPerm.lockstep", TopoPerm(p, e.n, e.lock), <<e.n, e.par, e.lock>>)      \* two iterators advanced in lock-step
               /\ Flag(e, "C01.TopoPerm.nested", TopoPerm(p, e.n, e.nested), <<e.n, e.par, e.nested>>)    \* a full inner traversal inside every step
               /\ Flag(e, "C01.TopoPerm.lazy", TopoPerm(p, e.n, e.lazy), <<e.n, e.par, e.lazy>>)          \* the body builds the runtime status
+              /\ Flag(e, "C01.TopoPerm.scratch", TopoPerm(p, e.n, e.scratch), <<e.n, e.par, e.scratch>>) \* built from one scratch list the caller reuses
               /\ (IF e.iter = ModelOrder(p, e.n) THEN TRUE ELSE TLCSet(4, TLCGet(4) + 1))
               /\ TLCSet(3, TLCGet(3) + 1) /\ TLCSet(2, l)
            /\ l' = l + 1
